@@ -58,9 +58,14 @@ func OpenPackage(L *LState) int {
 	L.SetField(packagemod, "loaders", loaders)
 	L.SetField(L.Get(RegistryIndex), "_LOADERS", loaders)
 
-	loaded := L.NewTable()
+	// package.loaded is the registry's _LOADED table (it already holds "package" itself and
+	// every module opened before this one); create it only if it does not exist yet
+	loaded, ok := L.GetField(L.Get(RegistryIndex), "_LOADED").(*LTable)
+	if !ok {
+		loaded = L.NewTable()
+		L.SetField(L.Get(RegistryIndex), "_LOADED", loaded)
+	}
 	L.SetField(packagemod, "loaded", loaded)
-	L.SetField(L.Get(RegistryIndex), "_LOADED", loaded)
 
 	L.SetField(packagemod, "path", LString(loGetPath(LuaPath, LuaPathDefault)))
 	L.SetField(packagemod, "cpath", emptyLString)
